@@ -1,4 +1,4 @@
-import DiscretModel.Lemmas.RoomMerge
+import DiscretModel.Lemmas.RoomImport
 /-
 C10 — A room means the same live, after restart, and on a peer that imports it.
 
@@ -184,6 +184,74 @@ theorem C10_import_earlier {df : Defects} {src dst dst' : Site} (hinv : SiteInv 
 theorem C10_import_consistent {s s' : Site} {cand : RoomRow} (hs : Reachable Defects.none s)
     (hi : s.importRoom Defects.none cand = .ok s') : SiteInv s' ∧ Reachable Defects.none s' :=
   ⟨(C10_invariant (Reachable.importRoom hs hi)).1, Reachable.importRoom hs hi⟩
+
+/-! ### success of the import by an instance that never saw the room -/
+
+/-- the instances built by accepted LOCAL room mutations alone (one instance, any callers), where every mutation is
+    dated after every date its room already holds (`AllEntries (· < m.date)`: a clock that moves forward between
+    mutations of one room) -/
+inductive BuiltLocally (df : Defects) : Site → Prop
+  | empty : BuiltLocally df Site.empty
+  | mutate {s s' : Site} {caller : Key} {n : Nat} {m : MutSpec} :
+      BuiltLocally df s → s.mutate df caller n m = .ok s' →
+      (∀ rr, s.getStored m.rid = some rr → AllEntries (fun _ t => t < m.date) rr) → BuiltLocally df s'
+
+/-- every such instance satisfies the invariant, is alive, and — with the repaired rule for group creation — every
+    stored row is signed by a key that is admin of the room (as held now) at the row's date: the caller of an accepted
+    mutation of an existing room is admin before and after it, the creator of a room is admin of it or creates it
+    empty (`validate_existing_admin`, `validate_new_admin_or_empty`), and later entries do not change who was admin
+    at earlier dates (past stability) -/
+theorem C10_built_entitled {df : Defects} (hdf : df.groupCreationUnchecked = false) {s : Site}
+    (h : BuiltLocally df s) : SiteInv s ∧ s.dead = false ∧ SiteEntitled s := by
+  induction h with
+  | empty =>
+    refine ⟨siteInv_empty, rfl, ?_⟩
+    intro rid r rr hm _
+    simp [Site.getMem, Site.empty] at hm
+  | @mutate s s' caller n m _ hm hdates ih =>
+    obtain ⟨hi, hd, he⟩ := ih
+    refine ⟨siteInv_mutate hi hm, ?_, siteEntitled_mutate hdf hi he hm hdates⟩
+    unfold Site.mutate at hm
+    split at hm
+    · cases hm
+    · simp only at hm
+      split at hm
+      · cases hm
+      · split at hm
+        · cases hm
+        · cases hm; simp [hd]
+
+/-- **C10 (the import by an instance that never saw the room SUCCEEDS), the code after the repair of the
+    group-creation rule.** For every instance built by accepted local room mutations whose dates move forward
+    (`BuiltLocally`), every room it holds whose stored entries have harmless ties is exported, accepted by ANY live
+    instance that does not hold the room — in particular a fresh one — and means there what it means on the exporter.
+    `df` is arbitrary apart from the replay order (fixed in /repo, f7a29ff) and the group-creation rule
+    (findings/C10-new-group-needs-room-admin.patch): the statement holds for `Defects.asImplemented` once that
+    repair is in. The remaining guards are exact: dates that do not move forward (`C10_breaks_authorDisabledSameDate`)
+    and conflicting equal-date entries (`C10_breaks_sameDateEntries`) make the import fail or mean something else. -/
+theorem C10_import_succeeds {df : Defects} (hnf : df.newestFirstReplay = false)
+    (hdf : df.groupCreationUnchecked = false) {src : Site}
+    (hb : BuiltLocally df src) {rid : Id} {r : Room} {rr : RoomRow} (hm : src.getMem rid = some r)
+    (hs : src.getStored rid = some rr) (ht : TiesHarmless rr) {dst : Site} (hdd : dst.dead = false)
+    (hnone : dst.getMem rid = none) :
+    ∃ cand dst' r', src.export df rid = .ok cand ∧ dst.importRoom df cand = .ok dst' ∧
+      dst'.getMem rid = some r' ∧ ∀ d, r.SameAt r' d := by
+  obtain ⟨hi, hd, he⟩ := C10_built_entitled hdf hb
+  obtain ⟨cand, dst', hexp, himp⟩ := import_new_succeeds hnf hi hd hm hs (he rid r rr hm hs) ht hdd hnone
+  obtain ⟨r', rr', hm', hs', hsame⟩ := C10_import_unknown hi hd hm hexp hnone himp
+  rw [hs] at hs'; cases hs'
+  exact ⟨cand, dst', r', hexp, himp, hm', hsame ht⟩
+
+/-- **C10 (what the local rule guarantees about the caller).** With the repaired rule for group creation, a room
+    mutation that adds an admin entry, a right, a user admin or a group is accepted only from a caller that is admin of
+    the room as it stands after the mutation. -/
+theorem C10_caller_is_admin {df : Defects} (hdf : df.groupCreationUnchecked = false) {mem : Option Room}
+    {caller : Key} {m : MutSpec} {room' : Room} (h : validate df mem caller m = .ok room')
+    (hnodup : (m.groups.map (·.gid)).Nodup)
+    (hfresh : ∀ g ∈ m.groups, g.isNew = true → ∀ r, m.isNew = false → mem = some r → r.getAuth g.gid = none)
+    (hneed : m.admins ≠ [] ∨ ∃ g ∈ m.groups, g.rights ≠ [] ∨ g.userAdmins ≠ [] ∨ g.isNew = true) :
+    room'.isAdmin caller m.date = true :=
+  validate_admin_of_need hdf h hnodup hfresh hneed
 
 /-! ### non-vacuity -/
 
@@ -421,5 +489,53 @@ theorem C10_breaks_sameDateEntries :
     adminAtSite site6 2 1 = false ∧
     adminAtSite (importedSite Defects.none site6) 2 1 = false ∧
     adminAtSite (importedSite { Defects.none with uidOrderReversed := true } site6) 2 1 = true := by decide
+
+/-! ### the guards of `C10_import_succeeds` are needed -/
+
+/-- `site2` (creation at date 1 by admin 1, update at date 3 by admin 1) is built locally, and a fresh instance
+    accepts its export -/
+example : BuiltLocally Defects.none site2 := by
+  obtain ⟨a, ha⟩ := ok_of_toBool (x := Site.empty.mutate Defects.none 1 0 m1) (by decide)
+  obtain ⟨b, hb⟩ := ok_of_toBool (x := site1.mutate Defects.none 1 (0 + m1.size) m2) (by decide)
+  have h1 : site1 = a := by simp only [site1, ha]
+  have h2 : site2 = b := by simp only [site2, hb]
+  rw [h2]
+  refine BuiltLocally.mutate (BuiltLocally.mutate BuiltLocally.empty ha ?_) (h1 ▸ hb) ?_
+  · intro rr hrr; simp [Site.getStored, Site.empty] at hrr
+  · intro rr hrr
+    have e : a.getStored m2.rid = site1.getStored 0 := by rw [h1]; rfl
+    rw [e] at hrr
+    have : site1.getStored 0 = some (match site1.getStored 0 with | some r => r | none => ⟨0, 0, 0, [], []⟩) := by decide
+    rw [this] at hrr; cases hrr
+    constructor <;> decide
+
+/-- key 4 is made user admin of group 0 (and nothing else) at date 2 by admin 1; at date 3 key 4 tries to add user 5 -/
+def m10 : MutSpec :=
+  { rid := 0, isNew := false, date := 2, admins := [],
+    groups := [{ gid := 0, isNew := false, rights := [], users := [], userAdmins := [(4, true)] }] }
+def m11 : MutSpec :=
+  { rid := 0, isNew := false, date := 3, admins := [],
+    groups := [{ gid := 0, isNew := false, rights := [], users := [(5, true)], userAdmins := [] }] }
+def site10 : Site := match site1.mutate Defects.none 1 100 m10 with | .ok s => s | .error _ => Site.empty
+
+/-- why `BuiltLocally` needs no assumption on the callers: the user-admin rule of `validate_authorisation_mutation`
+    (a group's user admin may add users) never applies to an existing room — `validate_room_mutation` refuses every
+    caller that is not a room admin before looking at anything else (`C01_room_mutation_existing`) -/
+example : (site1.mutate Defects.none 1 100 m10).toBool = true ∧ adminAtSite site10 4 3 = false ∧
+    (site10.mutate Defects.none 4 200 m11).toBool = false := by decide
+
+/-- at date 3 — the date of the update `m2` signed by admin 1 — admin 2 disables admin 1 -/
+def m12 : MutSpec := { rid := 0, isNew := false, date := 3, admins := [(1, false)], groups := [] }
+def site12 : Site := match site2.mutate Defects.none 2 300 m12 with | .ok s => s | .error _ => Site.empty
+
+/-- **C10_breaks_authorDisabledSameDate (the first hypothesis of `BuiltLocally.mutate` is needed).** On ONE instance:
+    admin 2 disables admin 1 with the very date of an entry that admin 1 signed. Live, that entry stays in force; for
+    an importer its author is not admin at its date any more (the last entry of admin 1 dated ≤ 3 is the disabling
+    one): the definition is refused by every instance that does not hold the room. With dates that move forward
+    between mutations this cannot happen (`C10_import_succeeds`). -/
+theorem C10_breaks_authorDisabledSameDate :
+    (site2.mutate Defects.none 2 300 m12).toBool = true ∧
+    (imported Defects.none site2 Site.empty).toBool = true ∧
+    (imported Defects.none site12 Site.empty).toBool = false := by decide
 
 end Discret.RoomBuild
